@@ -115,14 +115,20 @@ partial def parseEntries (s : List Char) : List Entry × List Char :=
     | _ => (acc.reverse, s)
   go s []
 
-def parseOp (t : String) : Option Op :=
+/-- a call as written in the build script, with what the harness saw at the path the call looks at
+(`!` = nothing there / not listable) -/
+def parseSOp (t : String) : Option (SOp × Option (Bytes × Option Node)) :=
+  let dirNode (rest : List String) : Option Node :=
+    let r := ":".intercalate rest
+    if r == "!" then none else some (.dir (parseEntries r.toList).1)
   match t.splitOn ":" with
-  | "T" :: indir :: rest => some (.compileTemplates (unhex indir) (parseEntries (":".intercalate rest).toList).1)
-  | ["F", path, content] => some (.addFile (unhex path) (unhex content))
-  | "D" :: indir :: rest => some (.addFiles (unhex indir) (parseEntries (":".intercalate rest).toList).1)
-  | ["A", path, url] => some (.addFileAs (unhex path) (unhex url))
-  | "S" :: indir :: to :: rest => some (.addFilesAs (unhex indir) (unhex to) (parseEntries (":".intercalate rest).toList).1)
-  | ["B", path, data] => some (.addFileData (unhex path) (unhex data))
+  | "T" :: indir :: rest => some (.compileTemplates (unhex indir), some (unhex indir, dirNode rest))
+  | ["F", path, content] =>
+    some (.addFile (unhex path), some (unhex path, if content == "!" then none else some (.file (unhex content))))
+  | "D" :: indir :: rest => some (.addFiles (unhex indir), some (unhex indir, dirNode rest))
+  | ["A", path, url] => some (.addFileAs (unhex path) (unhex url), none)
+  | "S" :: indir :: to :: rest => some (.addFilesAs (unhex indir) (unhex to), some (unhex indir, dirNode rest))
+  | ["B", path, data] => some (.addFileData (unhex path) (unhex data), none)
   | _ => none
 
 def sortPairs (l : List (Bytes × Bytes)) : List (Bytes × Bytes) :=
@@ -145,10 +151,15 @@ def runScript (utils : Bytes) (featS outH escS alnS fsS opsS : String) : String 
     match t.splitOn ":" with
     | [p, c] => some (unhex p, unhex c)
     | _ => none
-  let ops := if opsS == "-" then [] else (opsS.splitOn ";").filterMap parseOp
+  let calls := if opsS == "-" then [] else (opsS.splitOn ";").filterMap parseSOp
+  let script := calls.map (·.1)
+  -- the input tree as the operating system showed it: one node per path looked at
+  let seen : List (Bytes × Option Node) := calls.filterMap (·.2)
+  let tree : InFS := fun p => (seen.find? (fun x => x.1 == p)).bind (·.2)
+  let ops := script.map (SOp.resolve tree)
   let ue := fun c => escs.contains c
   let ua := fun c => alns.contains c
-  let o := build ue ua feat fs outdir utils ops
+  let o := Ructe.runScript ue ua feat fs outdir utils tree script
   let names := namesAfter ue ua feat outdir utils ops
   "stdout=" ++ hex (nl.intercalate o.stdout) ++
   "|files=" ++ ",".intercalate ((sortPairs o.fs).map fun (p, c) => hex p ++ ":" ++ hex c) ++
